@@ -1,7 +1,7 @@
 #!/bin/bash
-# tools/seedregress.sh <lane> <nlanes>: re-run every confirmed seed against its own property's check (quick tier), lane-wise
-L="$1"; N="$2"; i=0
-for d in /verif/seeded/*/; do
+# tools/seedregress.sh <lane> <nlanes> [glob]: re-run confirmed seeds (default all) against their own property's check (quick tier)
+L="$1"; N="$2"; G="${3:-*}"; i=0
+for d in /verif/seeded/$G/; do
   n=$(basename "$d"); i=$((i+1))
   [ $((i % N)) -eq "$L" ] || continue
   /verif/tools/seedcheck.py "$d" "$n" --no-tests > /tmp/seedregress_$n.log 2>&1
